@@ -159,6 +159,12 @@ def classify(log_text, target):
         where = fr[0] if fr else target
         return "timeout", f"C10:timeout:{where}", err.strip() + (f" in {fr[2]} ({fr[0]}:{fr[1]})" if fr else "")
     if "libFuzzer: out-of-memory" in err:
+        # RSS limit hit while an input with a tolerated (known) giant allocation was still running?
+        marks = [(i, l) for i, l in enumerate(lines[:idx]) if l.startswith("VERIF-BIGALLOC-")]
+        if marks and marks[-1][1].startswith("VERIF-BIGALLOC-BEGIN"):
+            mm = re.search(r"sig=(\S+) size=(\d+)", marks[-1][1])
+            if mm:
+                return "oom", mm.group(1), err.strip() + f" after the known allocation of {int(mm.group(2)) >> 20} MB at this site was let through"
         if "malloc(" in err and fr:
             return "oom", f"C10:oom:{fr[0]}:{fr[1]}", err.strip() + f" allocated in {fr[2]}"
         return "oom", f"C10:oom:rss:{target}", err.strip()
